@@ -2,9 +2,12 @@
   C14 — the result-file protocol of `TdMpsJob.dump_dict` (renormalizer/utils/tdmps.py) as a
   file-system state machine.  Import-free.
 
-  Files: F = <job>.npz, B = <job>.npz.bak.  A file is absent, a partially written archive
-  (not loadable) or a complete archive of some step.  `os.remove`, `os.rename` are atomic;
-  `np.savez` = create/truncate (partial) … complete.  `os.path.exists` is true for partial files.
+  Files: F = <job>.npz, B = <job>.npz.bak (only ever left behind by an earlier version / run),
+  T = <job>.npz.tmp.npz.  A file is absent, a partially written archive (not loadable) or a complete
+  archive of some step.  `os.remove`, `os.replace` are atomic; `np.savez` = create/truncate (partial) …
+  complete.  `os.path.exists` is true for partial files.
+
+  Protocol (after the repair D40): write T completely, atomically replace F by T, remove a left-over B.
 -/
 namespace RenoVerif.Dump
 
@@ -17,6 +20,7 @@ deriving DecidableEq, Repr
 structure Dir where
   f : FileSt
   b : FileSt
+  t : FileSt
 deriving DecidableEq, Repr
 
 def FileSt.exists : FileSt → Bool
@@ -25,26 +29,22 @@ def FileSt.exists : FileSt → Bool
 
 /-- the file-system operations issued by `dump_dict` -/
 inductive Op
+  | savezCreate (step : Nat)     -- T opened for writing (created / truncated), some bytes written
+  | savezFinish (step : Nat)     -- T closed
+  | replaceTF                    -- os.replace(T, F): atomic
   | removeB
-  | renameFB
-  | savezCreate (step : Nat)     -- archive opened for writing, some bytes written
-  | savezFinish (step : Nat)     -- archive closed
 deriving DecidableEq, Repr
 
 def apply (d : Dir) : Op → Dir
+  | .savezCreate k => { d with t := .part k }
+  | .savezFinish k => { d with t := .complete k }
+  | .replaceTF => { d with f := d.t, t := .absent }
   | .removeB => { d with b := .absent }
-  | .renameFB => { f := .absent, b := d.f }
-  | .savezCreate k => { d with f := .part k }
-  | .savezFinish k => { d with f := .complete k }
 
 /-- the op sequence of one `dump_dict` call at step `k` from directory `d`
-    (decisions `os.path.exists` are taken on the state reached so far, as in the code) -/
+    (the decision `os.path.exists(bak_path)` is taken after the replace; B is not touched before) -/
 def dumpOps (k : Nat) (d : Dir) : List Op :=
-  let pre : List Op :=
-    if d.f.exists then (if d.b.exists then [.removeB, .renameFB] else [.renameFB]) else []
-  let d1 := pre.foldl apply d
-  let post : List Op := if d1.b.exists then [.removeB] else []
-  pre ++ [.savezCreate k, .savezFinish k] ++ post
+  [.savezCreate k, .savezFinish k, .replaceTF] ++ (if d.b.exists then [.removeB] else [])
 
 /-- every directory state visible while the ops run (a crash can freeze any of them),
     the initial one included -/
@@ -56,13 +56,17 @@ def dumpTrace (k : Nat) (d : Dir) : List Dir := traceOps d (dumpOps k d)
 
 def dumpFinal (k : Nat) (d : Dir) : Dir := (dumpOps k d).foldl apply d
 
-/-- a complete file of step ≥ j is present -/
+/-- a complete file of step ≥ j -/
 def FileSt.goodFor (s : FileSt) (j : Nat) : Bool :=
   match s with
   | .complete i => j ≤ i
   | _ => false
 
+/-- a complete RESULT file (F or its backup B; the temporary file does not count) of step ≥ j is present -/
 def Dir.good (d : Dir) (j : Nat) : Bool := d.f.goodFor j || d.b.goodFor j
+
+/-- some complete result file is present, whatever its step (e.g. one written by an earlier run) -/
+def Dir.hasComplete (d : Dir) : Bool := d.good 0
 
 /-- all (step, directory) pairs visible during dumps `from .. from+n-1` starting in `d` -/
 def runTrace : Nat → Nat → Dir → List (Nat × Dir)
